@@ -430,3 +430,36 @@ func InLoopBody(b *ssa.BasicBlock) bool {
 	}
 	return false
 }
+
+// AllPathsPass: every path from the function entry to target executes one of sites first.
+func AllPathsPass(sites []ssa.Instruction, target ssa.Instruction) bool {
+	fn := target.Parent()
+	if len(fn.Blocks) == 0 {
+		return false
+	}
+	blocked := map[*ssa.BasicBlock]bool{}
+	for _, s := range sites {
+		if s.Block() == target.Block() {
+			if InstrIndex(s) < InstrIndex(target) {
+				return true
+			}
+			continue
+		}
+		blocked[s.Block()] = true
+	}
+	seen := map[*ssa.BasicBlock]bool{}
+	stack := []*ssa.BasicBlock{fn.Blocks[0]}
+	for len(stack) > 0 {
+		b := stack[len(stack)-1]
+		stack = stack[:len(stack)-1]
+		if seen[b] || blocked[b] {
+			continue
+		}
+		seen[b] = true
+		if b == target.Block() {
+			return false
+		}
+		stack = append(stack, b.Succs...)
+	}
+	return true
+}
